@@ -6,14 +6,18 @@
   Model: Phil/Fetch.lean.  Lemmas and auxiliary definitions (`FlatMaster`, `RefetchOK`, `PlainMeta`,
   `flatResult`, `refetchCounts`, `w1Master`, `w1Source`) are in Phil/Proofs/FetchLemmas.lean.
 
-  Status: PARTIAL + WITNESS.
+  Status: PARTIAL.
     * `fetch_flat_idempotent_partial` proves idempotence for flat masters (all fuel, all
       definition-only sources whose variables resolve — `SrcOK` — to `$`-free words;
       `fetch_flat_idempotent_plain` is the reading for variable-free sources).
-    * `refetch_duplicates_nested` is a kernel-checked counterexample to the full property (finding
-      D8, a defect of the library): with a `.multiple` definition inside a `.multiple` scope whose
-      default is not in canonical spelling (`yes` for a bool), the second fetch has one more
-      instance of the scope than the first.
+    * `refetch_stable_nested` (kernel evaluation): the former counterexample to the full property
+      (finding D8: a `.multiple` definition inside a `.multiple` scope whose default is not in
+      canonical spelling, `yes` for a bool — the second fetch had one more instance of the scope than
+      the first) is gone.  The library now renders the key of a `.multiple` master scope from the
+      scope's own fetch (fix of D9, `masterKeyOf` in the model), which also canonicalises the
+      default; both fetches have one instance.  The former theorems `refetch_duplicates_nested`,
+      `refetch_duplicates_nested_text` (counts `(1, 2)`) and `fetch_not_idempotent` derived from
+      them are false for the model of the fixed tree and were removed.
 -/
 import Phil.Proofs.FetchLemmas
 set_option linter.unusedVariables false
@@ -33,8 +37,8 @@ open Phil
     The full property additionally covers — and this theorem does not — master scopes (nested
     results, sources given as scopes or dotted names), `.multiple` definitions and scopes (template
     objects, de-duplication by rendered value), choice types (`*`-marking is re-interpreted by the
-    second fetch), `.deprecated` definitions, disabled master objects, and diff mode.  For
-    `.multiple` inside `.multiple` it is false: see `refetch_duplicates_nested`. -/
+    second fetch), `.deprecated` definitions, disabled master objects, and diff mode (for
+    `.multiple` inside `.multiple` see `refetch_stable_nested`). -/
 theorem fetch_flat_idempotent_partial (e : Envs) (fuel : Nat) (mkids combined : List Obj)
     (hf : FlatMaster mkids) (hr : RefetchOK mkids)
     (hdef : ∀ o ∈ combined, o.isDefn = true) (hsrc : ∀ o ∈ combined, SrcOK o)
@@ -69,39 +73,36 @@ theorem flatResult_idempotent (mkids combined : List Obj) (hf : FlatMaster mkids
     flatResult mkids (flatResult mkids combined) = flatResult mkids combined :=
   flatResult_idem mkids combined hf hr
 
-/-! ### the full property is false for the model of the unchanged tree -/
+/-! ### the former counterexample (D8) is repaired -/
 
-/-- **Witness (D8).**  Master `s .multiple=True { d = yes .type=bool .multiple=True }`, source
-    `s { d = no }`: the first fetch has one (non-template) instance of `s`, the fetch of its result
-    has two. -/
-theorem refetch_duplicates_nested : refetchCounts envNone w1Master w1Source = some (1, 2) :=
-  Phil.refetch_duplicates_nested
+/-- **Witness (D8 repaired).**  Master `s .multiple=True { d = yes .type=bool .multiple=True }`, source
+    `s { d = no }`: the first fetch has one (non-template) instance of `s`, and so has the fetch of
+    its result (before the fix of D9 the second fetch had two: the master key was rendered from the
+    raw block, `yes`, and compared with the canonical `True` of the re-fetched template). -/
+theorem refetch_stable_nested : refetchCounts envNone w1Master w1Source = some (1, 1) :=
+  Phil.refetch_stable_nested
 
 /-- the same on the parser's output for the two texts -/
-theorem refetch_duplicates_nested_text :
-    refetchCountsText envNone w1MasterText w1SourceText = some (1, 2) :=
-  Phil.refetch_duplicates_nested_text
+theorem refetch_stable_nested_text :
+    refetchCountsText envNone w1MasterText w1SourceText = some (1, 1) :=
+  Phil.refetch_stable_nested_text
 
-/-- hence idempotence fails: the two results differ (already in the number of `s` instances) -/
-theorem fetch_not_idempotent :
-    ∃ (e : Envs) (master source : List Obj) (r1 r2 : Obj) (u1 u2 : List Nat),
-      fetchRoot e false master [source] = .ok (r1, u1) ∧
-      fetchRoot e false master [r1.children] = .ok (r2, u2) ∧
-      countInst ['s'] r1 ≠ countInst ['s'] r2 := by
-  have h := Phil.refetch_duplicates_nested
-  unfold refetchCounts at h
-  cases h1 : fetchRoot envNone false w1Master [w1Source] with
-  | error err => rw [h1] at h; cases h
-  | ok p1 =>
-    obtain ⟨r1, u1⟩ := p1
-    rw [h1] at h
-    simp only at h
-    cases h2 : fetchRoot envNone false w1Master [r1.children] with
-    | error err => rw [h2] at h; cases h
-    | ok p2 =>
-      obtain ⟨r2, u2⟩ := p2
-      rw [h2] at h
-      simp only [Option.some.injEq, Prod.mk.injEq] at h
-      exact ⟨envNone, w1Master, w1Source, r1, r2, u1, u2, h1, h2, by rw [h.1, h.2]; decide⟩
+/-- pre-order listing of a tree: every object's meta data together with its words (a definition) or
+    the number of its children (a scope).  Trees with the same listing are the same tree. -/
+def preorder : Nat → Obj → List (Meta × (List Word ⊕ Nat))
+  | 0, _ => []
+  | _ + 1, .defn m ws => [(m, .inl ws)]
+  | f + 1, .scope m kids => (m, .inr kids.length) :: kids.flatMap (preorder f)
+
+/-- on this input the second fetch reproduces the first one exactly: the two result trees have the
+    same pre-order listing (all meta data, all words) -/
+theorem refetch_fixed_point_nested :
+    (match fetchRoot envNone false w1Master [w1Source] with
+     | .ok (r1, _) =>
+       (match fetchRoot envNone false w1Master [r1.children] with
+        | .ok (r2, _) => some (decide (preorder 8 r2 = preorder 8 r1), (preorder 8 r1).length)
+        | .error _ => none)
+     | .error _ => none) = some (true, 6) := by
+  decide +kernel
 
 end Phil.C07
